@@ -159,3 +159,25 @@ Definition records (last_eof : bool) (rs : bytes) (r : re) (chunks : list bytes)
   : option (list record * stop) :=
   if set_rs_panics rs then None
   else Some (scan unit record (goawk_split rs (find r)) last_eof tt chunks).
+
+(* RS assigned by the program while a file is being read by an active regexSplitter: the
+   splitter dereferences p.recordSepRegex at every call (interp.go setSpecial V_RS recompiles
+   it, also for RS of 0 or 1 bytes), and nextLine's RT default is the current RS.  State =
+   number of records delivered so far; [find_at n] / [rs_at n] = regex / RS in force after n
+   records (assignments happen in actions, i.e. between Scan calls). *)
+Definition regex_split_sched (rs_at : nat -> bytes) (find_at : nat -> bytes -> option (Z * Z))
+  : splitfn nat record := fun n data atEOF =>
+  match regex_scan (find_at n) data atEOF with
+  | Ok (adv, tok, rtw) =>
+      SOk adv (option_map (fun t => (t, match rtw with Some r => r | None => rs_at n end)) tok)
+          (match tok with Some _ => S n | None => n end)
+  | _ => SPanic
+  end.
+
+(* RS = rs1 (a regex RS) until the action of record k assigns RS = rs2 *)
+Definition records_sched (last_eof : bool) (rs1 : bytes) (r1 : re) (k : nat) (rs2 : bytes) (r2 : re)
+  (chunks : list bytes) : list record * stop :=
+  scan nat record
+    (regex_split_sched (fun n => if Nat.ltb n k then rs1 else rs2)
+                       (fun n => find (if Nat.ltb n k then r1 else r2)))
+    last_eof O chunks.
